@@ -154,6 +154,9 @@ type CallStep struct {
 	Gas   uint64 // 0 = all remaining gas
 	Data  []byte
 	Fail  OnFail
+	// Record, when non-zero, stores the call's success flag (1/0) + 1 in this storage slot
+	// so that a monitor can read afterwards whether the call succeeded (2) or failed (1).
+	Record uint64
 }
 
 type SStore struct{ Slot, Val uint64 }
@@ -199,6 +202,9 @@ func (s CallStep) emit(a *Asm) {
 		a.Op(vm.DELEGATECALL)
 	case CallCode:
 		a.Op(vm.CALLCODE)
+	}
+	if s.Record != 0 {
+		a.Op(vm.DUP1).PushU(1).Op(vm.ADD).PushU(s.Record).Op(vm.SSTORE)
 	}
 	failCheck(a, s.Fail)
 }
@@ -271,4 +277,46 @@ func InitCode(ctor []Step, runtime []Step) []byte {
 		}
 	}
 	return append(init, rt...)
+}
+
+// Forward calls To with the frame's own calldata (copied to memory at 0).
+type Forward struct {
+	Kind   CallKind
+	To     common.Address
+	Value  *big.Int
+	Gas    uint64
+	Fail   OnFail
+	Record uint64
+}
+
+func (s Forward) emit(a *Asm) {
+	a.Op(vm.CALLDATASIZE).PushU(0).PushU(0).Op(vm.CALLDATACOPY)
+	a.PushU(0).PushU(0).Op(vm.CALLDATASIZE).PushU(0)
+	if s.Kind == Call || s.Kind == CallCode {
+		v := s.Value
+		if v == nil {
+			v = new(big.Int)
+		}
+		a.Push(v)
+	}
+	a.PushAddr(s.To)
+	if s.Gas == 0 {
+		a.Op(vm.GAS)
+	} else {
+		a.PushU(s.Gas)
+	}
+	switch s.Kind {
+	case Call:
+		a.Op(vm.CALL)
+	case StaticCall:
+		a.Op(vm.STATICCALL)
+	case DelegateCall:
+		a.Op(vm.DELEGATECALL)
+	case CallCode:
+		a.Op(vm.CALLCODE)
+	}
+	if s.Record != 0 {
+		a.Op(vm.DUP1).PushU(1).Op(vm.ADD).PushU(s.Record).Op(vm.SSTORE)
+	}
+	failCheck(a, s.Fail)
 }
